@@ -483,6 +483,7 @@ enum Mode {
     Guard,
     Alloc,
     Work,
+    Time,
 }
 
 fn run_line(line: &str, mode: Mode, out: &mut String) {
@@ -511,6 +512,20 @@ fn run_line(line: &str, mode: Mode, out: &mut String) {
                     // into a pre-sized buffer
                     let mut tmp = String::with_capacity(1 << 16);
                     alloc_case(kind, entry, cfg, cap, &data, &mut tmp, out);
+                }
+                Mode::Time => {
+                    // minimum wall-clock time of 5 runs (after one warm-up run)
+                    let mut tmp = String::new();
+                    api_case(kind, entry, cfg, cap, &data, &mut tmp);
+                    let mut best = u128::MAX;
+                    for _ in 0..5 {
+                        tmp.clear();
+                        let t0 = std::time::Instant::now();
+                        api_case(kind, entry, cfg, cap, &data, &mut tmp);
+                        best = best.min(t0.elapsed().as_nanos());
+                    }
+                    let st = tmp.split(' ').next().unwrap_or("").to_string();
+                    write!(out, "{} len={} ns={}", st, data.len(), best).unwrap();
                 }
                 Mode::Work => {
                     counters_reset();
@@ -976,6 +991,7 @@ fn main() {
         Some("guard") => run_file(&args[2], Mode::Guard),
         Some("alloc") => run_file(&args[2], Mode::Alloc),
         Some("work") => run_file(&args[2], Mode::Work),
+        Some("time") => run_file(&args[2], Mode::Time),
         Some("utf8") => utf8_check(args[2].parse().unwrap(), args[3].parse().unwrap()),
         Some("tables") => tables(),
         Some("sweep") => sweep(args[2].parse().unwrap(), args.get(3).map(|s| s == "1").unwrap_or(false)),
